@@ -280,13 +280,30 @@ func Build(name string) *Graph {
 		b := g.SimpleImage(false, "arm64", "base", "b")
 		c := g.SimpleImage(false, "arm", "base", "a")
 		g.Top = g.IndexP(false, []PlatDesc{{a, amd}, {b, arm}, {c, &Platform{Architecture: "arm", OS: "linux", Variant: "v7"}}}, nil).Digest
+	case "G19": // artifact that uses the empty descriptor both as config and as its only layer
+		e := g.Blob(MTOCIEmpty, "{}")
+		g.Top = g.Image(false, e, []modelreg.Desc{e}, nil, "application/vnd.example.marker", nil).Digest
+	case "G20": // two platform images sharing one config blob, distinct layers
+		la := g.Blob(MTOCILayer, "cfgshare-a")
+		lb := g.Blob(MTOCILayer, "cfgshare-b")
+		cfg := g.Blob(MTOCIConfig, `{"architecture":"amd64","os":"linux","rootfs":{"type":"layers","diff_ids":[]}}`)
+		a := g.Image(false, cfg, []modelreg.Desc{la}, nil, "", nil)
+		b := g.Image(false, cfg, []modelreg.Desc{lb}, nil, "", nil)
+		g.Top = g.IndexP(false, []PlatDesc{{a, amd}, {b, arm}}, nil).Digest
+	case "G21": // a digest tag whose manifest is an index that lists the tagged image again (loop)
+		s1 := g.SimpleImage(false, "amd64", "loop-s1")
+		s2 := g.SimpleImage(false, "arm64", "loop-s2")
+		x := g.Artifact("application/vnd.example.att", "loop-att", nil, nil)
+		r := g.IndexP(false, []PlatDesc{{s1, amd}, {x, nil}}, nil)
+		g.Top = g.IndexP(false, []PlatDesc{{s1, amd}, {s2, arm}}, nil).Digest
+		g.Tags[g.DigestTag(s1, ".bundle")] = r.Digest
 	default:
 		panic("unknown graph " + name)
 	}
 	return g
 }
 
-var All = []string{"G1", "G2", "G3", "G4", "G5", "G6", "G7", "G8", "G9", "G10", "G11", "G13", "G14", "G15", "G17", "G18", "G1-512", "G3-512"}
+var All = []string{"G1", "G2", "G3", "G4", "G5", "G6", "G7", "G8", "G9", "G10", "G11", "G13", "G14", "G15", "G17", "G18", "G19", "G20", "G21", "G1-512", "G3-512"}
 
 // AllDigests returns every digest of the graph (manifests and hosted blobs), sorted.
 func (g *Graph) AllDigests() []string {
